@@ -170,6 +170,8 @@ class MrAndersonSimulator(object):
             raise ValueError(f"Expected argument device_param to be of type dict, but found {type(device_param)}.")
         if not isinstance(nqubit, int):
             raise ValueError(f"Expected argument nqubit to be of type int, but found {type(nqubit)}.")
+        if not isinstance(psi0, np.ndarray):
+            raise ValueError(f"Expected argument psi0 to be of type np.ndarray, but found {type(psi0)}.")
 
         # Check values
         if shots < 1:
